@@ -29,6 +29,12 @@ pub mod tracking {
                 r matches Ok(run) ==> run.id as int == old(w).recorded_id { unimplemented!() }
     }
 }
+// the result document: stored by store_run_output, read back by result_show - the serde round trip of its types is ASSUMED
+//!serde src/app/run.rs RunOutput
+//!serde src/app/run.rs CommandRunResult
+//!serde src/app/run.rs TargetRunResult
+//!serde src/app/run.rs RunStatus
+//!serde src/app/run.rs Out
 pub mod run { pub struct RunOutput { pub x: u8 } }
 //!const src/app/result.rs RESULT_OUTPUT_FILE_NAME
 pub const RESULT_OUTPUT_FILE_NAME: &⟦'static ⟧str = "result.json.zst";
